@@ -132,6 +132,7 @@ struct Obs {
     stdio: bool,
     ticks: u64,
     max_depth: u32,
+    clock_reads: u64,
 }
 
 fn obs_of(r: &JobResult, my_tid: usize) -> Obs {
@@ -143,6 +144,7 @@ fn obs_of(r: &JobResult, my_tid: usize) -> Obs {
         stdio: r.stdio_leak.is_some(),
         ticks: r.eval_ticks,
         max_depth: r.max_depth,
+        clock_reads: r.clock_reads,
     }
 }
 
@@ -201,6 +203,7 @@ pub struct ExecOut {
     pub violations: Vec<(String, String, usize, usize)>, // class, detail, thread, job index
     pub stats: SchedStats,
     pub jobs_observed: u64,
+    pub clock_reads: u64,
     pub history_hashes: Vec<u64>,
     pub outcome_kinds: BTreeMap<String, u64>,
     pub obs_digest: u64,
@@ -280,6 +283,9 @@ pub fn execute(case: &SchedCase, proc_refs: &[((usize, usize), String, String)])
             .spawn(move || {
                 crate::seams::set_thread_entropy(Some(t2.entropy));
                 crate::detalloc::set_region(2 + tid, t2.heap_shift);
+                // the observed compilations take place on another day (and year) than their
+                // references, which run at seams::DEFAULT_EPOCH: a result that reads the clock differs
+                crate::seams::set_epoch(1_000_000_000 + t2.entropy % 2_000_000_000);
                 sched2.enter(tid);
                 for j in &t2.jobs {
                     crate::sched::point(crate::sched::PointKind::JobStart, 1);
@@ -301,7 +307,7 @@ pub fn execute(case: &SchedCase, proc_refs: &[((usize, usize), String, String)])
     }
     grass_compiler::verif::set_point_callback(None);
     let results = results.lock().unwrap().clone();
-    let mut out = ExecOut { violations: vec![], stats, jobs_observed: 0, history_hashes: vec![], outcome_kinds: BTreeMap::new(), obs_digest: 0 };
+    let mut out = ExecOut { violations: vec![], stats, jobs_observed: 0, clock_reads: 0, history_hashes: vec![], outcome_kinds: BTreeMap::new(), obs_digest: 0 };
     for tid in 0..nthreads {
         for o in &results[tid] {
             out.obs_digest = mix(out.obs_digest, hash_bytes(1, format!("{}|{:?}|{:?}|{}", o.observable, o.log, o.marks, o.ticks).as_bytes()));
@@ -325,6 +331,7 @@ pub fn execute(case: &SchedCase, proc_refs: &[((usize, usize), String, String)])
         let mut hist = 0u64;
         for (k, o) in results[tid].iter().enumerate() {
             out.jobs_observed += 1;
+            out.clock_reads += o.clock_reads;
             let kind = o.observable.split(|c| c == '\n' || c == ' ').next().unwrap_or("").to_string();
             *out.outcome_kinds.entry(kind).or_insert(0) += 1;
             if k > 0 {
@@ -444,6 +451,7 @@ fn exec_out_to_json(_case: &SchedCase, o: &ExecOut) -> Value {
         "points_by_kind": o.stats.points_by_kind,
         "sim_time": o.stats.sim_time,
         "jobs_observed": o.jobs_observed,
+        "clock_reads": o.clock_reads,
         "history_hashes": o.history_hashes.iter().map(|h| format!("{:x}", h)).collect::<Vec<_>>(),
         "outcome_kinds": o.outcome_kinds,
         "obs_digest": format!("{:x}", o.obs_digest),
@@ -1029,6 +1037,11 @@ impl Engine for SchedEngine {
                     res.bump("evaluations", 1);
                     res.bump("process_pristine_references", case.proc_refs.len() as u64);
                     res.bump("jobs_observed", out.get("jobs_observed").and_then(|x| x.as_u64()).unwrap_or(0));
+                    res.bump("jobs_under_simulated_clock", out.get("jobs_observed").and_then(|x| x.as_u64()).unwrap_or(0));
+                    let cr = out.get("clock_reads").and_then(|x| x.as_u64()).unwrap_or(0);
+                    if cr > 0 {
+                        res.bump("probe.clock_reads_inside_compilation", cr);
+                    }
                     res.bump(&format!("policy.{}", case.policy.name()), 1);
                     res.bump(&format!("threads.{}", case.threads.len()), 1);
                     res.bump("sim_time_units", out.get("sim_time").and_then(|x| x.as_u64()).unwrap_or(0));
